@@ -51,7 +51,7 @@ static ALLOC: c16_alloc::CountingAlloc = c16_alloc::CountingAlloc;
 
 const RULE: &str = "decoders: ExtendedHeader decode+validate(+verify against a trusted header); Sample/Row/RowNamespaceData decode+verify; BadEncodingFraudProof decode+validate(header); NamespaceProof/MerkleProof/RowProof/ShareProof decode+verify; shrex codec decode_and_verify of EDS/sample/row/namespace-data responses and decode of the four request ids; shrex-sub EdsNotification; bitswap blocks through ShwapMultihasher (sample/row/row-namespace-data, id taken from the block's CID) and get_block_container; header-ex HeaderCodec read_request, and read_response followed by decode_and_verify_responses. \
 honest encodings: squares of ODS width 1,1,2,2,4 (+8,16 thorough; one with share version 1, the empty block), samples at the corners of every quadrant with row and column proofs, rows (left and right halves) 0,w-1,w,2w-1, namespace data of the first/middle/last/absent/parity namespace, bad-encoding proofs of rows/columns corrupted in an original or a parity cell (EDS width 4; +8,16 thorough) and of honest squares, a signed header chain (1-3 validators, nil and absent votes), header-ex requests by origin/hash and response lists of 1..3 (thorough: 8..10) headers. \
-per honest encoding the full product of: (a) truncation at EVERY byte; (b) byte substitution {0x00,0xff,^0x01,^0x80} at positions first 256 + last 64 + within 2 of every protobuf field boundary found by a recursive wire walk (quick) / EVERY position (thorough; encodings above 16 KiB: first 1024 + last 256 + within 8 of every field or share boundary + every 64th byte); all 256 values at every position of the fixed-size ids, notifications and header-ex requests; (c) every single-node mutation of the protobuf tree: each varint := {0,1,2^31-1,2^31,2^32-1,2^63-1,2^63,2^64-1,i32::MIN sign-extended}, each absent field number up to two past the largest present one (at most 8) of every (sub)message inserted with the same 9 values / empty bytes / one byte, each bytes field {empty, first byte, last byte dropped, one byte appended, doubled, all 0x00, all 0xff}, each sub-message emptied, each field removed, each run of equal-numbered fields resized to {0,1,63,64,65,200}; (d) all PAIRS of integer mutations of (c) when the encoding has at most 200 (quick) / 2600 (thorough; header-ex responses 700) of them; (e) prost Raw-type products: NMT proof start x end over the 9 values x node count {honest,0,1,63,64,65,200} x leaf_hash {honest, presence<->absence, 89 bytes, 1 byte, 91 bytes} x ignore flag; Sample proof_type {0,1,-1,2,i32::MAX,i32::MIN} x share {honest,absent,empty,511,513 bytes} x proof {honest,absent,absence form,0..200 nodes}; Row shares_half count {0,1,2,3,w-1,w+1,2w,63,64,65,200} x half_side {0,1,-1,2,i32::MAX,i32::MIN} x share size {512,0,1,511,513,64,65}; RowNamespaceData share count x share form x proof form; BadEncoding index {0,1,w-1,w,65535,65536,2^31-1,2^31,2^32-1} x height {h,h+1,2^64-1 (+0,1,2^63-1,2^63 thorough)} x axis {0,1,-1,2} x share count {w,0,1,w-1,w+1,63,64,65,200} x share form x present entries {all,left half,right half,even,odd}; RowProof start_row x end_row over u32 extremes x list lengths, merkle total x index; ShareProof share-proof ranges x data count x namespace version; bitswap CID height x row x column extremes and version/codec/multihash/declared-length/digest forms; shrex EDS payloads of {0..5,8,9,15,16,17,25,36,63,64,65,200 (+256,1024,1089,4096 thorough)} shares x {honest,zero,0xff bytes} x length offsets {0,-1,+1,+256}; header-ex request data x amount over the 9 values and 12 length-prefix forms, response entry count x status x body form. \
+per honest encoding the full product of: (a) truncation at EVERY byte; (b) byte substitution {0x00,0xff,^0x01,^0x80} at positions first 256 + last 64 + within 2 of every protobuf field boundary found by a recursive wire walk (quick) / EVERY position (thorough; encodings above 16 KiB: first 1024 + last 256 + within 8 of every field or share boundary + every 64th byte); all 256 values at every position of the fixed-size ids, notifications and header-ex requests; (c) every single-node mutation of the protobuf tree: each varint := {0,1,2^31-1,2^31,2^32-1,2^63-1,2^63,2^64-1,i32::MIN sign-extended}, each absent field number up to two past the largest present one (at most 8) of every (sub)message inserted with the same 9 values / empty bytes / one byte, each bytes field {empty, first byte, last byte dropped, one byte appended, doubled, all 0x00, all 0xff}, each sub-message emptied, each field removed, each run of equal-numbered fields resized to {0,1,63,64,65,200}; (d) all PAIRS of integer mutations of (c) when the encoding has at most 200 (quick) / 2600 (thorough; header-ex responses 700) of them; (e) prost Raw-type products: NMT proof start x end over the 9 values x node count {honest,0,1,63,64,65,200} x leaf_hash {honest, presence<->absence, 89 bytes, 1 byte, 91 bytes} x ignore flag; Sample proof_type {0,1,-1,2,i32::MAX,i32::MIN} x share {honest,absent,empty,511,513 bytes} x proof {honest,absent,absence form,0..200 nodes}; Row shares_half count {0,1,2,3,w-1,w+1,2w,63,64,65,200} x half_side {0,1,-1,2,i32::MAX,i32::MIN} x share size {512,0,1,511,513,64,65}; RowNamespaceData share count x share form x proof form; BadEncoding index {0,1,w-1,w,65535,65536,2^31-1,2^31,2^32-1} x height {h,h+1,2^64-1 (+0,1,2^63-1,2^63 thorough)} x axis {0,1,-1,2} x share count {w,0,1,w-1,w+1,63,64,65,200} x share form x present entries {all,left half,right half,even,odd}; RowProof start_row x end_row over u32 extremes x list lengths, merkle total x index; ShareProof share-proof ranges x data count x namespace version; bitswap CID height x row x column extremes and version/codec/multihash/declared-length/digest forms; shrex EDS payloads of {0..5,8,9,15,16,17,25,36,63,64,65,200 (+256,1024,1089,4096 thorough)} shares x {honest,zero,0xff bytes} x length offsets {0,-1,+1,+256}; header-ex request data x amount over the 9 values and 12 length-prefix forms, response entry count x status x body form, streams of 2^10 / 2^20 (thorough: 10 MiB -1/+0/+1) empty entries; shrex namespace data of {0,1,2,65535,65536,65537,200000} minimal rows. \
 distinct = (decoder, honest encoding, mutation) by construction; non-trivial = every case but the unmodified honest encodings";
 
 const ALLOC_CASE_CAP: usize = 1 << 30;
